@@ -388,7 +388,12 @@ class Ctx:
 
     def inconsistent(s):
         sol = s._solver()
-        return s._check(sol) == z3.unsat
+        if s._check(sol) == z3.unsat: return True
+        # a disequation refuted by the order facts (p >= 0 and -p >= 0 with p != 0 recorded)
+        if s.facts:
+            for q in s.NE:
+                if s.entails_zero(q): return True
+        return False
 
     def is_real_poly(s, p):
         at = s.atoms
@@ -613,7 +618,13 @@ class SC:
         if isinstance(r, SBool): return ~r
         return not r
 
-    def __hash__(s): raise TypeError('hash of symbolic value')
+    def __hash__(s):
+        # constant hash for symbolic values: sets / dicts fall back to == (which forks); constants hash like numbers
+        if s.p.is_const():
+            c = s.p.const_value()
+            if c.im == 0:
+                return hash(c.re)
+        return 0
 
     def conjugate(s): return SC(s.p.conj(CTX.atoms))
     conj = conjugate
@@ -670,9 +681,33 @@ class SC:
         return c
 
 
+def polar(z):
+    """contract stub for (abs(z), angle(z)): rho real >= 0 and a unit atom u = e^{j theta} with rho*u = z"""
+    C = CTX
+    key = z.p.key()
+    memo = C.extra.setdefault('polar', {})
+    if key not in memo:
+        k = len(memo)
+        rho = C.atoms.new(f'rho{k}', real=True, unknown=True)
+        th = C.atoms.new(f'theta{k}', real=True, unknown=True)
+        rho_s = SC(Poly.atom(rho)); th_s = SC(Poly.atom(th))
+        u = unit_of_angle(th_s)
+        C.add_eq((rho_s * u - z).p)
+        C.facts.append((rho_s.p, False))
+        memo[key] = (rho_s, th_s, u)
+    return memo[key]
+
+
 class SAbs:
     """|z| of a symbolic value; supports the comparisons the repository code makes"""
     def __init__(s, z): s.z = z
+
+    def _polar(s): return polar(s.z)[0]
+    def __mul__(s, o): return s._polar() * o
+    __rmul__ = __mul__
+    def __add__(s, o): return s._polar() + o
+    __radd__ = __add__
+    def __truediv__(s, o): return s._polar() / o
 
     def _real_abs(s):
         z = s.z
